@@ -224,8 +224,12 @@ impl RoutingThread {
                     .unwrap();
             }
             Message::Block(_) => {
-                error!("received block message");
-                unreachable!();
+                // blocks are fetched over the block-fetch url, never pushed: a peer must not be
+                // able to stop the node by sending one
+                warn!(
+                    "received a block message from peer : {:?}. ignoring",
+                    peer_index
+                );
             }
         }
     }
